@@ -223,3 +223,4 @@ def predicate(op, il, mres, tag):
 
 def matches_known(k, op, il, mres, tag):
     return False
+import composite, cosign as _thin; _thin.wrap(globals(), "C16")  # COSIGN / CAT ops (checklib/models/cosign.py)
